@@ -263,3 +263,14 @@ def corrupt_state_blocks_commit(trace, viol):
     return f.get("family") == "corrupt" and viol.get("monitor") == "fault.followup" and \
         viol.get("class") in ("retry_differs_from_plain_git", "later_command_exit_status_differs") and \
         "Pre-commit failed" in err
+
+
+@predicate("rebase_note_lines_beyond_file")
+def rebase_note_lines_beyond_file(trace, viol):
+    """notes written by the rebase content-replay path describe the whole file state carried over
+    from the original head, also for commits of the range that did not touch the file: they can
+    list line numbers the file does not have at that commit"""
+    if viol.get("class") != "line_beyond_file":
+        return False
+    av = _step_argv(trace, viol)
+    return av[:1] in (["rebase"], ["cherry-pick"]) and "--abort" not in av
